@@ -227,6 +227,17 @@ theorem saved_grows_only_at_save (F : Z → E → Z) (s : Sim Z) (op : Op E) :
     simp only [step]
     cases s.saved[i]? <;> rfl
 
+/-- restoring iteration `i` and saving again stores iteration `i` once more (the trial state is restored together with the
+committed one; C15 reads the same fact on the iteration store) -/
+theorem restore_save_appends_restored (F : Z → E → Z) (s : Sim Z) (i : Nat) (z : Z) (h : s.saved[i]? = some z) :
+    (step F (step F s (.restore i)) .save).saved = s.saved ++ [z] ∧ (step F (step F s (.restore i)) .save).committed = z := by
+  simp [step, h]
+
+/-- … and an integration after a restore starts from the restored state -/
+theorem integrate_after_restore (F : Z → E → Z) (s : Sim Z) (i : Nat) (z : Z) (h : s.saved[i]? = some z) (e : E) :
+    (step F (step F s (.restore i)) (.integrate e)).trial = F z e := by
+  simp [step, h]
+
 end stateMachine
 
 /-! ### non-vacuity: μ = 1, H = 1, σ_y = 1, q_tr = 5, p = 0 flows with Δp = 1 and lands on the surface -/
